@@ -623,6 +623,15 @@ def successive_spec(rng, form, fmt, types):
     return spec
 
 
+def strip_ids(rec, note):
+    """Remove the id-supplying attributes; a line keeps at least one attribute with a value, and that one leads."""
+    rec["attrs"] = [a for a in rec["attrs"] if a[0] not in ("ID", "Name", "Alias")]
+    if not any(v for _, v in rec["attrs"]):
+        rec["attrs"].insert(0, ["Note", [note]])
+    while rec["attrs"][0][1] == []:
+        rec["attrs"].append(rec["attrs"].pop(0))
+
+
 def gen_successive_case(rng, strategy=None, start=None):
     """start: "keyed" (every feature of the first import has its id attribute: no key is auto-numbered, the
     autoincrements table starts empty) | "counters" (the first import already hands out '<featuretype>_<n>' keys)."""
@@ -648,9 +657,7 @@ def gen_successive_case(rng, strategy=None, start=None):
         for rec in base[:rng.randrange(1, len(base) + 1)]:
             if rng.random() < 0.6:
                 rec["featuretype"] = rng.choice(pool)
-            rec["attrs"] = [a for a in rec["attrs"] if a[0] not in ("ID", "Name", "Alias")] or [["Note", ["first"]]]
-            while rec["attrs"][0][1] == []:
-                rec["attrs"].append(rec["attrs"].pop(0))
+            strip_ids(rec, "first")
     batches = [base]
     k = rng.choice([2, 2, 3, 3, 4])
     off = 30
@@ -663,9 +670,7 @@ def gen_successive_case(rng, strategy=None, start=None):
                 rec["featuretype"] = rng.choice(pool)
             if rng.random() < 0.85:
                 # lacks the id attribute(s): the key is '<featuretype>_<n>'
-                rec["attrs"] = [a for a in rec["attrs"] if a[0] not in ("ID", "Name", "Alias")] or [["Note", ["later%s" % rec["start"]]]]
-                while rec["attrs"][0][1] == []:
-                    rec["attrs"].append(rec["attrs"].pop(0))
+                strip_ids(rec, "later" + rec["start"])
         batches.append(recs)
     db = rng.choice(["file", "file", "memory"])
     reopen_before = [False] * k
